@@ -82,6 +82,16 @@ Fixpoint insert_sorted (t : nat) (l : list nat) : list nat :=
   | a :: r => if (t <? a)%nat then t :: l else if Nat.eqb t a then l else a :: insert_sorted t r
   end.
 
+(* with the read cache on, the storage.get inside update/remove may be served without a backend
+   call: when the next observed step of a thread is not the GET the model expects, the model's
+   read step is taken unobserved (under the document lock it reads the same value) *)
+Definition is_lget (l : label) : bool := match l with LGet _ _ => true | _ => false end.
+Definition silent_read (x : rs) (t : nat) : rs :=
+  match tstep (fst x) t with
+  | Some (s', Some (LGet _ _)) => (s', t :: snd x)
+  | _ => x
+  end.
+
 Record replay_state := mkR { r_x : rs; r_started : list nat; r_wait : list nat; r_rets : list (nat * ret) }.
 
 Definition process (post : bool) (st : replay_state) (e : event) : option replay_state :=
@@ -92,11 +102,12 @@ Definition process (post : bool) (st : replay_state) (e : event) : option replay
       Some (mkR (settle n started (r_wait st) (r_x st)) started (r_wait st) (r_rets st))
   | EvApply t l =>
       if natmem t (r_wait st) then None else
-      match tstep (fst (r_x st)) t with
+      let x0 := if is_lget l then r_x st else silent_read (r_x st) t in
+      match tstep (fst x0) t with
       | Some (s', Some l') =>
           if label_eqb l l'
           then let wait := if post then t :: r_wait st else r_wait st in
-               Some (mkR (settle n (r_started st) wait (s', t :: snd (r_x st))) (r_started st) wait (r_rets st))
+               Some (mkR (settle n (r_started st) wait (s', t :: snd x0)) (r_started st) wait (r_rets st))
           else None
       | _ => None
       end
